@@ -45,19 +45,25 @@ where
     P: PolynomialTraits,
 {
     let maxiter = maxiter as usize;
-    let mut romberg_table: Vec<Vec<f64>> = vec![vec![0.0; 10]; 10];
+    // Rows and columns up to iter + 1 are used, iter runs to max(maxiter, 1), and the
+    // segment count 2^iter does not fit a usize from iter = 64 on
+    let table_size = maxiter.clamp(1, 64) + 2;
+    let mut romberg_table: Vec<Vec<f64>> = vec![vec![0.0; table_size]; table_size];
     let mut iter = 0_usize;
     let mut segments = 1;
     romberg_table[1][1] = trapezoidal_rule(poly, start, end, segments)?;
 
     loop {
         iter += 1;
-        segments = 2_u32.pow(iter as u32) as usize;
+        segments = match 2_usize.checked_pow(iter as u32) {
+            Some(count) => count,
+            None => return Err(IntegralError::MaxIterationsReached),
+        };
 
         romberg_table[iter + 1][1] = trapezoidal_rule(poly, start, end, segments)?;
         for k in 2..=iter + 1 {
             let j = 2 + iter - k;
-            let p = 4_usize.pow((k as u32) - 1) as f64;
+            let p = 4_f64.powi(k as i32 - 1);
 
             romberg_table[j][k] =
                 (p * romberg_table[j + 1][k - 1] - romberg_table[j][k - 1]) / (p - 1.0);
